@@ -18,7 +18,8 @@ Max22    == [c \in {"A", "B"} |-> 2]
 BA == {-1, 2, 4, 5, 8}        \* out of range, the well-known service address, named, dynamic, out of range
 \* scenario families of the quick tier (the kinds of the sockets a side creates are fixed per family)
 SeqAlloc == [c \in {"A", "B"} |-> IF c = "A" THEN <<"raw", "dlc", "ldl", "dlc">> ELSE <<>>]
-SeqNames == [c \in {"A", "B"} |-> IF c = "A" THEN <<"dlc", "dlc", "dlc">> ELSE <<"dlc", "dlc">>]
+SeqNames == [c \in {"A", "B"} |-> IF c = "A" THEN <<"dlc", "dlc", "dlc">> ELSE <<"dlc">>]
+Max41    == [c \in {"A", "B"} |-> IF c = "A" THEN 4 ELSE 1]
 SeqDgram == [c \in {"A", "B"} |-> IF c = "A" THEN <<"raw", "ldl", "ldl">> ELSE <<"ldl">>]
 Max31    == [c \in {"A", "B"} |-> IF c = "A" THEN 3 ELSE 1]
 Max42n   == [c \in {"A", "B"} |-> IF c = "A" THEN 4 ELSE 2]
